@@ -413,7 +413,7 @@ theorem scanLoop_info (fuel : Nat) : âˆ€ (a : Ascii) (sq : Sq) (M : Nat), WF a â
 /-! ## `header_fasta` leaves a fresh line-geometry tracker -/
 
 theorem reset_ok (t : Track) : Track.Ok { t with prvrpl := -1, prvbpl := -1, currpl := 0, curbpl := 0 } :=
-  âŸ¨by simp, by simpâŸ©
+  Track.Ok.of_inactive _ (by simp) (by simp) (Or.inl (by simp))
 
 theorem hfEnd_ok_trk (a : Ascii) (sq : Sq) (st : Status) (c : UInt8) :
     (hfEnd a sq st c).2.2 = .ok â†’ Track.Ok (hfEnd a sq st c).1.trk := by
